@@ -23,6 +23,24 @@ SCH = 'edb/schema/schema.py'
 
 def conj(cs): return ' and '.join('(%s)' % c for c in cs)
 
+def build_chained(w):
+    """ChainedSchema (std schema / user schema / global schema stacked): a referrer lookup on the stack is the union of the lookups on its three layers.
+       R4  ChainedSchema.get_referrers    == base | top | global
+       R5  ChainedSchema.get_referrers_ex == the key-wise union over ALL keys of the three layers"""
+    w.refclass('Layer', {}); w.refclass('CSch', {'_base_schema': 'Layer', '_top_schema': 'Layer', '_global_schema': 'Layer'}, SCH, 'ChainedSchema')
+    w.refclass('Ty', {}, universal=True)
+    w.ufunc('REFS', ['Layer', 'Obj', 'Opt[Ty]', 'Opt[str]'], 'Set[Obj]'); w.ufunc('REFX', ['Layer', 'Obj', 'Opt[Ty]'], 'Map[Tuple[Ty,str],Set[Obj]]')
+    w.trusted.append('the referrer lookups of a single layer (FlatSchema.get_referrers / get_referrers_ex) are functions of (layer, object, type filter, field filter)')
+    w.ext_methods['Layer.get_referrers'] = dict(params={'scls': 'Obj', 'scls_type': 'Opt[Ty]', 'field_name': 'Opt[str]'}, returns='Set[Obj]', returns_expr='REFS(self, scls, scls_type, field_name)')
+    w.ext_methods['Layer.get_referrers_ex'] = dict(params={'scls': 'Obj', 'scls_type': 'Opt[Ty]'}, returns='Map[Tuple[Ty,str],Set[Obj]]', returns_expr='REFX(self, scls, scls_type)')
+    L = ('self._base_schema', 'self._top_schema', 'self._global_schema')
+    w.contract(SCH, 'ChainedSchema.get_referrers', params={'self': 'CSch', 'scls': 'Obj', 'scls_type': 'Opt[Ty]', 'field_name': 'Opt[str]'}, returns='Set[Obj]',
+        ensures=['forall(Obj, lambda r: (r in result) == (%s))' % ' or '.join('r in REFS(%s, scls, scls_type, field_name)' % l for l in L)])
+    X = lambda l: 'REFX(%s, scls, scls_type)' % l
+    w.contract(SCH, 'ChainedSchema.get_referrers_ex', params={'self': 'CSch', 'scls': 'Obj', 'scls_type': 'Opt[Ty]'}, returns='Map[Tuple[Ty,str],Set[Obj]]',
+        ensures=['forall(Ty, str, lambda c, f: ((c, f) in result) == (%s))' % ' or '.join('(c, f) in %s' % X(l) for l in L),
+                 'forall(Ty, str, Obj, lambda c, f, r: implies((c, f) in result, (r in result[(c, f)]) == (%s)))' % ' or '.join('((c, f) in %s and r in %s[(c, f)])' % (X(l), X(l)) for l in L)])
+
 def build():
     w = World('C04')
     w.any('Id'); w.any('TName'); w.any('FName')      # field names are opaque (no string theory in the 4-place quantifiers); the literal 'name' is one fixed FName
@@ -231,6 +249,7 @@ def build():
                  'forall(FName, lambda n: implies(n in orig_refs, n in cls_fields(sclass) and cls_fields(sclass)[n] in dD))'])},
         call_ghost={'FlatSchema._update_refs_to': {'olddata': 'values', 'newdata': 'None'}},
         hints=dict(var_types={'orig_refs': 'Map[FName,Set[Id]]', 'refs_to': 'Opt[%s]' % REFS}))
+    build_chained(w)
     return w
 
 def extra_obligations(w, tier, seed):
